@@ -6,7 +6,8 @@ Decides (DESIGN.md C04), for every state and every limiter outcome:
  F2 all five fluxes carry the same scaling (face area, flux limiter) relative to the Riemann output;
  F3 every interior face is visited exactly once (shared with C10-S1/S2);
  F4 the positivity safeguard is on every final write of mass / energy / density / pressure;
- F5 a boundary (ghost) flux changes only the inside cell.
+ F5 a boundary (ghost) flux changes only the inside cell;
+ F6 the read-modify-write updates of F1 are never concurrent on one subgrid (C07 rules G4, G8 re-checked).
 Finiteness, the reflective-wall clause and the size of the round-off are numeric and not decided.
 """
 import sympy as sp
@@ -164,3 +165,21 @@ def run(chk, prog):
                         "the value given to %s is %s: not non-negative by construction on every path" %
                         (st, v.e if v is not None else "never set"), function=f["full"], construct="clamp %s" % st)
     chk.floor("F", n, 20)
+    # F6: the equal-and-opposite updates of F1 are read-modify-write operations on both cells: they only add up when no two
+    # tasks touch one subgrid at the same time.  The exclusivity / ordering premises of the task graph (C07) are re-checked
+    # here, as C10 does, so that a lock dropped from a flux task is reported against conservation as well.
+    from ..report import Check
+    from . import c07
+    sub = Check("C07", "embedded", "other")
+    c07.run(sub, prog)
+    no = 0
+    for o in sub.obligations:
+        if o["rule"] in ("G4", "G8"):
+            no += 1
+            if o["verdict"] == "VIOLATED":
+                chk.fail("F6-" + o["rule"], o["instance"], o["where"], o["detail"], function=o.get("function", ""),
+                         construct=o.get("construct", ""))
+    chk.ok("F6", "every hydro task holds the lock of each subgrid it updates and is ordered against the other phases "
+           "(%d C07 obligations G4, G8 re-checked)" % no, "src/TaskBasedRadiationHydrodynamicsSimulation.cpp")
+    chk.floor("F6", no, 1000)
+
